@@ -33,7 +33,9 @@ Record frac := mkFrac {
   f_act : bool; f_sld : bool; f_ro : bool;      (* proxyFrac: active != nil, sealed != nil, readonly *)
   f_blocks : list (nat * nat);                  (* Active.DocBlocks: which bulk (writer, number) each block holds *)
   f_pos : list (id * (nat * nat));              (* DocsPositions: ID -> (block index, document index in the block) *)
-  f_ids : list id;                              (* MIDs/RIDs: index = LID, entry 0 = system ID *)
+  f_ldocs : list doc;                           (* MIDs/RIDs: index = LID, entry 0 = system ID. The code keeps only the ID
+                                                   of each entry (f_ids below); the rest of the document is GHOST state:
+                                                   no step reads it, the proofs use it to say which document a LID is *)
   f_toks : list tlids;                          (* TokenList (entry 0 = `_all_`) *)
   f_from : N; f_to : N; f_total : nat;          (* Info.From / To / DocsTotal *)
   f_wg : nat;                                   (* proxyFrac.indexWg *)
@@ -46,8 +48,10 @@ Record frac := mkFrac {
 
 Definition max_mid : N := 18446744073709551615%N.
 Definition sys_id : id := (max_mid, max_mid).
+Definition sys_doc : doc := mkDoc sys_id [] 0%N.
+Definition f_ids (f : frac) : list id := map d_id (f_ldocs f).
 Definition new_frac : frac :=
-  mkFrac true false false [] [] [sys_id] [mkTl 0%N [] []] max_mid 0%N 0 0 0 0 SNone [] false.
+  mkFrac true false false [] [] [sys_doc] [mkTl 0%N [] []] max_mid 0%N 0 0 0 0 SNone [] false.
 
 Record wst := mkW {
   w_cur : nat;        (* number of the bulk being sent *)
@@ -253,23 +257,23 @@ Definition step_w (c : config) (st : state) (w : nat) : state * obs :=
              then (setw st w (fun x => mkW (w_cur x) 1 (last_g st) 0 [] 0 [] 0), OHook 1)
              else (st, ODisabled)
       | 1 => if (f_act f && negb (f_sld f) && negb (f_ro f))%bool
-             then (setw (setf st g (fun f => mkFrac (f_act f) (f_sld f) (f_ro f) (f_blocks f) (f_pos f) (f_ids f) (f_toks f)
+             then (setw (setf st g (fun f => mkFrac (f_act f) (f_sld f) (f_ro f) (f_blocks f) (f_pos f) (f_ldocs f) (f_toks f)
                                              (f_from f) (f_to f) (f_total f) (S (f_wg f)) (f_rl f) (S (f_subs f)) (f_seal f) (f_sdocs f) (f_ssui f)))
                         w (fun x => mkW (w_cur x) 2 g 0 [] 0 [] 0), OHook 2)
              else (setw st w (fun x => mkW (w_cur x) 1 (last_g st) 0 [] 0 [] 0), OHook 1)
-      | 2 => (setw (setf st g (fun f => mkFrac (f_act f) (f_sld f) (f_ro f) (f_blocks f ++ [(w, w_cur x)]) (f_pos f) (f_ids f) (f_toks f)
+      | 2 => (setw (setf st g (fun f => mkFrac (f_act f) (f_sld f) (f_ro f) (f_blocks f ++ [(w, w_cur x)]) (f_pos f) (f_ldocs f) (f_toks f)
                                           (f_from f) (f_to f) (f_total f) (f_wg f) (f_rl f) (f_subs f) (f_seal f) (f_sdocs f) (f_ssui f)))
                    w (fun x => mkW (w_cur x) 3 g (length (f_blocks f)) [] 0 [] 0), OHook 3)
       | 3 => let '(pos', app) := set_multiple (w_blk x) 0 b (f_pos f) in
              let kept := filter (fun d => mem_id (d_id d) app) b in
-             (setw (setf st g (fun f => mkFrac (f_act f) (f_sld f) (f_ro f) (f_blocks f) pos' (f_ids f) (f_toks f)
+             (setw (setf st g (fun f => mkFrac (f_act f) (f_sld f) (f_ro f) (f_blocks f) pos' (f_ldocs f) (f_toks f)
                                           (f_from f) (f_to f) (f_total f) (f_wg f) (f_rl f) (f_subs f) (f_seal f) (f_sdocs f) (f_ssui f)))
                    w (fun x => mkW (w_cur x) 4 g (w_blk x) kept (length app) [] 0), OHook 4)
       | 4 => let lids := seq (length (f_ids f)) (length (w_docs x)) in
-             (setw (setf st g (fun f => mkFrac (f_act f) (f_sld f) (f_ro f) (f_blocks f) (f_pos f) (f_ids f ++ map d_id (w_docs x)) (f_toks f)
+             (setw (setf st g (fun f => mkFrac (f_act f) (f_sld f) (f_ro f) (f_blocks f) (f_pos f) (f_ldocs f ++ w_docs x) (f_toks f)
                                           (f_from f) (f_to f) (f_total f) (f_wg f) (f_rl f) (f_subs f) (f_seal f) (f_sdocs f) (f_ssui f)))
                    w (fun x => mkW (w_cur x) 5 g (w_blk x) (w_docs x) (w_cnt x) lids 0), OHook 5)
-      | 5 => (setw (setf st g (fun f => mkFrac (f_act f) (f_sld f) (f_ro f) (f_blocks f) (f_pos f) (f_ids f) (add_toks (bulk_toks b) (f_toks f))
+      | 5 => (setw (setf st g (fun f => mkFrac (f_act f) (f_sld f) (f_ro f) (f_blocks f) (f_pos f) (f_ldocs f) (add_toks (bulk_toks b) (f_toks f))
                                           (f_from f) (f_to f) (f_total f) (f_wg f) (f_rl f) (f_subs f) (f_seal f) (f_sdocs f) (f_ssui f)))
                    w (fun x => mkW (w_cur x) 6 g (w_blk x) (w_docs x) (w_cnt x) (w_lids x) 0), OHook 6)
       | 6 => match put_order (c_ver c) b with
@@ -279,17 +283,17 @@ Definition step_w (c : config) (st : state) (w : nat) : state * obs :=
       | 7 => let order := put_order (c_ver c) b in
              let t := nth (w_k x) order 0%N in
              let grp := group_lids t (w_docs x) (w_lids x) in
-             let st1 := setf st g (fun f => mkFrac (f_act f) (f_sld f) (f_ro f) (f_blocks f) (f_pos f) (f_ids f)
+             let st1 := setf st g (fun f => mkFrac (f_act f) (f_sld f) (f_ro f) (f_blocks f) (f_pos f) (f_ldocs f)
                                               (upd_tok t (fun y => mkTl (tl_tok y) (tl_sorted y) (tl_queue y ++ grp)) (f_toks f))
                                               (f_from f) (f_to f) (f_total f) (f_wg f) (f_rl f) (f_subs f) (f_seal f) (f_sdocs f) (f_ssui f)) in
              if Nat.ltb (S (w_k x)) (length order)
              then (setw st1 w (fun x => mkW (w_cur x) 7 g (w_blk x) (w_docs x) (w_cnt x) (w_lids x) (S (w_k x))), OHook 7)
              else (setw st1 w (fun x => mkW (w_cur x) 8 g (w_blk x) (w_docs x) (w_cnt x) (w_lids x) 0), OHook 8)
-      | 8 => (setw (setf st g (fun f => mkFrac (f_act f) (f_sld f) (f_ro f) (f_blocks f) (f_pos f) (f_ids f) (f_toks f)
+      | 8 => (setw (setf st g (fun f => mkFrac (f_act f) (f_sld f) (f_ro f) (f_blocks f) (f_pos f) (f_ldocs f) (f_toks f)
                                           (N.min (f_from f) (min_mid (w_docs x))) (N.max (f_to f) (max_mid_of (w_docs x)))
                                           (f_total f + w_cnt x) (f_wg f) (f_rl f) (f_subs f) (f_seal f) (f_sdocs f) (f_ssui f)))
                    w (fun x => mkW (w_cur x) 9 g (w_blk x) (w_docs x) (w_cnt x) (w_lids x) 0), OHook 9)
-      | _ => (setw (setf st g (fun f => mkFrac (f_act f) (f_sld f) (f_ro f) (f_blocks f) (f_pos f) (f_ids f) (f_toks f)
+      | _ => (setw (setf st g (fun f => mkFrac (f_act f) (f_sld f) (f_ro f) (f_blocks f) (f_pos f) (f_ldocs f) (f_toks f)
                                           (f_from f) (f_to f) (f_total f) (pred (f_wg f)) (f_rl f) (f_subs f) (f_seal f) (f_sdocs f) (f_ssui f)))
                    w (fun x => mkW (S (w_cur x)) 0 0 0 [] 0 [] 0), OHook 10)
       end
@@ -297,10 +301,10 @@ Definition step_w (c : config) (st : state) (w : nat) : state * obs :=
 
 (* ------------------------------------------------------------------ reader *)
 Definition set_rl (f : frac) (n : nat) : frac :=
-  mkFrac (f_act f) (f_sld f) (f_ro f) (f_blocks f) (f_pos f) (f_ids f) (f_toks f)
+  mkFrac (f_act f) (f_sld f) (f_ro f) (f_blocks f) (f_pos f) (f_ldocs f) (f_toks f)
          (f_from f) (f_to f) (f_total f) (f_wg f) n (f_subs f) (f_seal f) (f_sdocs f) (f_ssui f).
 Definition set_toks (f : frac) (t : list tlids) : frac :=
-  mkFrac (f_act f) (f_sld f) (f_ro f) (f_blocks f) (f_pos f) (f_ids f) t
+  mkFrac (f_act f) (f_sld f) (f_ro f) (f_blocks f) (f_pos f) (f_ldocs f) t
          (f_from f) (f_to f) (f_total f) (f_wg f) (f_rl f) (f_subs f) (f_seal f) (f_sdocs f) (f_ssui f).
 
 Definition set_op (st : state) (r : nat) (op : rop) : state := setr st r (fun x => mkR (r_snap x) op).
@@ -429,7 +433,7 @@ Definition step_r (c : config) (st : state) (r : nat) : state * obs :=
 
 (* ------------------------------------------------------------------ maintenance *)
 Definition set_seal (f : frac) (act sld ro : bool) (seal : spc) (sdocs : list doc) : frac :=
-  mkFrac act sld ro (f_blocks f) (f_pos f) (f_ids f) (f_toks f)
+  mkFrac act sld ro (f_blocks f) (f_pos f) (f_ldocs f) (f_toks f)
          (f_from f) (f_to f) (f_total f) (f_wg f) (f_rl f) (f_subs f) seal sdocs (f_ssui f).
 
 Definition step_rot (st : state) : state * obs :=
@@ -474,9 +478,9 @@ Definition step_sui (st : state) : state * obs :=
     let g := shift st in
     (mkSt (upd g (fun f =>
                     if replaced (f_seal f)
-                    then mkFrac (f_act f) (f_sld f) (f_ro f) (f_blocks f) (f_pos f) (f_ids f) (f_toks f) (f_from f) (f_to f)
+                    then mkFrac (f_act f) (f_sld f) (f_ro f) (f_blocks f) (f_pos f) (f_ldocs f) (f_toks f) (f_from f) (f_to f)
                                 (f_total f) (f_wg f) (f_rl f) (f_subs f) (f_seal f) (f_sdocs f) true
-                    else mkFrac false false (f_ro f) (f_blocks f) (f_pos f) (f_ids f) (f_toks f) (f_from f) (f_to f)
+                    else mkFrac false false (f_ro f) (f_blocks f) (f_pos f) (f_ldocs f) (f_toks f) (f_from f) (f_to f)
                                 (f_total f) (f_wg f) (f_rl f) (f_subs f) (f_seal f) (f_sdocs f) true) (fracs st))
           (S (shift st)) (ws st) (rs st), OUnit)
   else (st, ODisabled).
